@@ -398,6 +398,10 @@ class Check:
                 self.judged(rec, n=v.get('n', 1))
                 self.disagreement(rec, v, replayer, recs)
             else:
+                try:
+                    json.dump({'line': rec, 'verdict': v}, open(BUILD + '/last_machinery_line.json', 'w'))
+                except OSError:
+                    pass
                 raise MachineryError('replayer verdict %r on line %s' % (v, json.dumps(rec)[:500]))
 
     # ---- finish
